@@ -150,7 +150,7 @@ func checkC18(c *Ctx, r *Result, tier string) {
 			}
 		})
 	}
-	r.Floor("R18a", nAdv, 4)
+	r.Floor("R18a", nAdv, 3)
 
 	// ---- R18b emitters ---------------------------------------------------------------------------
 	tok := c.NamedType("parser", "LexToken")
@@ -214,7 +214,7 @@ func checkC18(c *Ctx, r *Result, tier string) {
 			}
 		})
 	}
-	r.Floor("R18b", nEmit, 3)
+	r.Floor("R18b", nEmit, 2)
 
 	// ---- R18c stamp before write-back -----------------------------------------------------------
 	nWB := 0
